@@ -23,11 +23,13 @@ func init() {
 		Level: "exploration",
 		Rule: "controlled schedules: generated scripts of start / finish-normally / finish-by-panic over 1-4 sources and limits 0-5 with handlers that block until released, so the driver knows the exact in-flight count at every arrival (expected decision: admit iff count < max; a gauge inside the handler asserts the maximum); " +
 			"free-running: 16 goroutines behind a barrier on 1-2 sources with handlers that hold their slot for a random number of yields, recorded acquire/release histories checked for linearizability (porcupine, partitioned by source) against a counter model; after quiescence max probes per source must all be admitted concurrently; " +
+			"a fifth of the controlled drivers use the built-in client.ip extractor over a table of peers (IPv4 with and without port, IPv6, zoned link-local with equal prefixes), the others request.header.X in four spellings; handlers rewrite or delete the identifying header before returning; " +
 			"non-trivial = script/history with at least one rejection at the limit and observed concurrency equal to the limit; distinct by (limit, script)",
 		Assumptions: []string{"each request counts one unit (header-based extractor)", "porcupine Unknown (timeout) is inconclusive"},
 		Parts: []Part{
 			{Name: "controlled", Shards: 8, Fn: c04Controlled},
 			{Name: "free", Race: true, Shards: 6, Fn: c04Free},
+			{Name: "slowreject", Shards: 2, Fn: c04SlowReject},
 		},
 	})
 }
@@ -139,6 +141,13 @@ func (d *connDriver) start(id int, src string) (admitted bool, status int) {
 		req.Header.Set("X-Id", sfmt("%d", id))
 		if d.byIP {
 			req.RemoteAddr = connPeer(src, id)
+		}
+		if id%7 == 5 {
+			// the client has already gone away (or an outer timeout fired) when the request reaches the limiter: it is a
+			// request like any other for the accounting
+			ctx, cancel := context.WithCancel(req.Context())
+			cancel()
+			req = req.WithContext(ctx)
 		}
 		pan := false
 		func() {
@@ -555,4 +564,126 @@ type connReqState struct {
 
 func contextWith(ctx context.Context, st *connReqState) context.Context {
 	return context.WithValue(ctx, ctxKeyConn{}, st)
+}
+
+// c04BlockingWriter: a client that is slow to take the response: the first write blocks until the gate opens.
+type c04BlockingWriter struct {
+	h       http.Header
+	code    int
+	gate    chan struct{}
+	entered chan struct{}
+	once    sync.Once
+}
+
+func (w *c04BlockingWriter) Header() http.Header { return w.h }
+func (w *c04BlockingWriter) block() {
+	w.once.Do(func() { close(w.entered) })
+	<-w.gate
+}
+func (w *c04BlockingWriter) WriteHeader(code int) {
+	if w.code == 0 {
+		w.code = code
+	}
+	w.block()
+}
+func (w *c04BlockingWriter) Write(p []byte) (int, error) {
+	if w.code == 0 {
+		w.code = 200
+	}
+	w.block()
+	return len(p), nil
+}
+
+// c04SlowReject: a rejected request whose 429 is still being written to a slow client holds no slot: once the requests
+// that were in flight have finished, the source has nothing in flight and its next request must be admitted.
+func c04SlowReject(c *Ctx) {
+	c.Cases("slowreject", c.N(200, 4000), func(i int, r *rand.Rand) {
+		limit := int64(1 + r.IntN(4))
+		d := newConnDriver(limit)
+		src := sfmt("s%d", r.IntN(3))
+		id := 0
+		var inflight []int
+		for k := int64(0); k < limit; k++ {
+			id++
+			if adm, st := d.start(id, src); !adm {
+				c.Violation("slowreject/setup", sfmt("limit %d: request %d of the source was rejected (status %d) while filling up to the limit", limit, k+1, st), nil)
+				return
+			}
+			inflight = append(inflight, id)
+		}
+		nrej := 1 + r.IntN(3)
+		var ws []*c04BlockingWriter
+		var dones []chan struct{}
+		for k := 0; k < nrej; k++ {
+			id++
+			w := &c04BlockingWriter{h: http.Header{}, gate: make(chan struct{}), entered: make(chan struct{})}
+			done := make(chan struct{})
+			req := httptest.NewRequest("GET", "http://x.test/", nil)
+			req.Header.Set("X-Src", src)
+			req.Header.Set("X-Id", sfmt("%d", id))
+			if d.byIP {
+				req.RemoteAddr = connPeer(src, id)
+			}
+			go func() {
+				defer close(done)
+				defer func() { _ = recover() }()
+				d.cl.ServeHTTP(w, req)
+			}()
+			select {
+			case <-w.entered:
+			case <-done:
+			case <-d.entered:
+				c.Eval()
+				c.Violation("controlled/admitted-over-limit", sfmt("limit %d: with %d in flight a further request of the source entered the handler", limit, limit), nil)
+				return
+			case <-time.After(30 * time.Second):
+				c.Inconclusive("slowreject: rejected request neither wrote nor returned within 30s")
+				return
+			}
+			ws, dones = append(ws, w), append(dones, done)
+		}
+		// everything that was in flight finishes
+		for _, fid := range inflight {
+			if _, ok := d.finish(fid, false); !ok {
+				c.Violation("hang", "a released request did not return", nil)
+				return
+			}
+		}
+		c.Eval()
+		// nothing is in flight for the source (the rejected ones are only being answered): the full maximum is available
+		var again []int
+		for k := int64(0); k < limit; k++ {
+			id++
+			adm, st := d.start(id, src)
+			if !adm {
+				c.Violation("slowreject/rejected-below-limit", sfmt("limit %d: %d requests were in flight and have all finished; %d rejected requests are still being answered (their 429 is blocked in a slow client's write); the source has nothing in flight, yet arrival %d was rejected (status %d)", limit, limit, nrej, k+1, st), nil)
+				for _, w := range ws {
+					close(w.gate)
+				}
+				return
+			}
+			again = append(again, id)
+		}
+		for _, w := range ws {
+			close(w.gate)
+		}
+		for _, dn := range dones {
+			select {
+			case <-dn:
+			case <-time.After(30 * time.Second):
+			}
+		}
+		for _, w := range ws {
+			if w.code != http.StatusTooManyRequests {
+				c.Violation("slowreject/status", sfmt("request arriving at the limit was answered %d, want 429", w.code), nil)
+				return
+			}
+		}
+		for _, fid := range again {
+			d.finish(fid, false)
+		}
+		c.Nontrivial(sfmt("slowreject/%d/%d/%d", limit, nrej, i))
+		c.Count("slowreject_nontrivial", 1)
+	})
+	c.Require("slowreject_nontrivial", 2)
 }
